@@ -884,3 +884,33 @@ def sibling_views(recipe, env, salt=0):
     for k in list((env2.get("views") or {})):
         fix(env2["views"][k])
     return (env2, rec2) if changed[0] else None
+
+
+@st.composite
+def param_power_at_zero(draw):
+    """(env, recipe, order, points): a power whose exponent is a Parameter (value 2, 3 or 4 - or 0.5 / 1.5 when `singular`
+    callers want it) next to ordinary terms, with points at which the base is EXACTLY zero: x ** p is a polynomial there, its
+    derivatives are regular, and any rule of the form a^b * (b' ln a + b a'/a) gives 0 * inf"""
+    pval = draw(st.sampled_from([2.0, 3.0, 4.0, 2.0]))
+    env = {"scalars": [{"name": "x"}, {"name": "y"}], "vectors": [{"name": "v", "n": 2}], "matrices": [],
+           "params": [{"name": "p", "value": pval}]}
+    X, Y = ["var", "x"], ["var", "y"]
+    base = draw(st.sampled_from([X, X, ["bin", "-", X, Y], ["elem", ["vvar", "v"], 0], ["bin", "*", ["const", "pyfloat", 2.0], X]]))
+    pw = ["bin", "**", base, ["param", "p"]]
+    other = draw(st.sampled_from([["bin", "*", X, Y], ["bin", "**", Y, ["const", "pyint", 2]], ["vsum", ["vpow", ["vvar", "v"], 2]],
+                                  ["un", "sin", Y], ["bin", "*", ["elem", ["vvar", "v"], 1], X]]))
+    recipe = draw(st.sampled_from([["bin", "+", pw, other], ["bin", "-", other, pw], ["bin", "+", ["bin", "*", ["const", "pyfloat", 1.5], pw], other],
+                                   ["bin", "*", pw, ["bin", "+", Y, ["const", "pyfloat", 2.0]]]]))
+    names = ["x", "y", "v[0]", "v[1]"]
+    order = list(draw(st.permutations(names)))
+    pts = []
+    for _ in range(3):
+        pt = {n: draw(st.sampled_from([1.0, -1.0, 1.5, 0.5, -2.0, 0.25])) for n in names}
+        if draw(st.integers(0, 3)) > 0:
+            # make the base vanish exactly
+            pt["x"] = 0.0
+            pt["v[0]"] = 0.0
+            if base[0] == "bin" and base[1] == "-":
+                pt["x"] = pt["y"]
+        pts.append(pt)
+    return env, recipe, order, pts
